@@ -59,6 +59,7 @@ def main():
             common.proof_step(ctx)
         mod.run(ctx)
     except Exception as e:
+        common.restore_streams()
         tb = ''.join(traceback.format_exception(type(e), e, e.__traceback__))     # includes a pool worker's remote traceback
         # the exception chain (a pool worker's remote traceback included), segment by segment: the innermost frame of each
         import re
